@@ -83,6 +83,8 @@ def check_sampler(res, c):
     p2 = workload.load(p.read())
     for path, a, b in snapshot.diff(Sp, build.norm_module(snapshot.snap_module(p2.modules[1], "project"), "after"))[:3]:
         res.violation(f"C16:project:{snapshot.field_key(path)}", f"{path}: before {a}, after {b}", desc)
+    if c.index % 3 == 0:
+        mutable_sample_buffers(res, c)
     # second round on the LOADED instrument: edit it in place (samples, envelopes, map, embedded effect) and save again
     from . import c06
     import random as _random
@@ -103,6 +105,33 @@ def check_sampler(res, c):
             res.violation(f"C16:resave-stale:{snapshot.field_key(path)}", f"after in-place edits {applied[:4]} of the loaded sampler, {path}: object {a}, file {b}", desc)
 
 
+def mutable_sample_buffers(res, c):
+    """Sample data held in a MUTABLE buffer (bytearray) that the application keeps editing in place between saves: every save
+    writes the bytes the buffer holds at that moment."""
+    import rv.api as api
+    m = c.obj.clone()
+    slots = [i for i, s in enumerate(m.samples) if s is not None and len(s.data) >= 4]
+    if not slots:
+        return
+    i = slots[c.index % len(slots)]
+    s = m.samples[i]
+    buf = bytearray(s.data)
+    s.data = buf
+    desc = dict(c.describe(), slot=i)
+    try:
+        first = workload.load(api.Synth(m).read()).module.samples[i].data
+        for k in range(0, len(buf), max(1, len(buf) // 7)):
+            buf[k] ^= 0x5A
+        second = workload.load(api.Synth(m).read()).module.samples[i].data
+    except Exception as e:
+        res.violation(f"C16:resave-raises:{workload.exc_key(e)}", f"sampler whose sample data is a bytearray: {e!r}", desc)
+        return
+    res.count("mutable_sample_buffer_cases")
+    if bytes(second) != bytes(buf) or bytes(first) == bytes(second):
+        res.violation("C16:resave-stale:/module/payload/samples/N/data", f"slot {i}: sample data is a bytearray edited in place after a first save; the second file holds "
+                                                                        f"{'the OLD bytes' if bytes(second) == bytes(first) else 'other bytes'}", desc)
+
+
 # ------------------------------------------------------------------ legacy variants
 def fixture_chunks():
     with open(os.path.join(env.FIXTURE_DIR, "sampler.sunsynth"), "rb") as f:
@@ -112,7 +141,7 @@ def fixture_chunks():
 
 def make_variant(chunks, rng):
     """Returns (description, bytes, expected upgraded envelopes or None)."""
-    kind = rng.choice(("no-envelopes", "no-envelopes", "signature-wiped", "truncated-0x184", "truncated-0x188", "no-envelopes+truncated"))
+    kind = rng.choice(("no-envelopes", "no-envelopes", "signature-wiped", "truncated-0x184", "truncated-0x188", "truncated-0x18c", "no-envelopes+truncated"))
     out = []
     skip = False
     rec_index = None
@@ -156,8 +185,13 @@ def make_variant(chunks, rng):
         }
     if kind == "signature-wiped":
         rec[0xfc:0x100] = rng.choice([b"\0\0\0\0", b"XXXX", b"SAMP"])
+    if "truncat" in kind and len(rec) >= 0x190:
+        # the trailing fields carry values of their own before the record is cut (each field that is still there counts)
+        struct.pack_into("<Iii", rec, 0x184, rng.randint(7, 1 << 30), rng.randint(1, 1 << 20), rng.randint(1, 1 << 20))
     if "truncated-0x184" in kind:
         rec = rec[:0x184]
+    elif "truncated-0x18c" in kind:
+        rec = rec[:0x18c]
     elif "truncated-0x188" in kind or kind == "no-envelopes+truncated":
         rec = rec[:0x188]
     out[rec_index][1] = bytes(rec)
@@ -176,6 +210,22 @@ def check_legacy(res, chunks, rng, k):
         res.violation(f"C16:legacy-unloadable:{kind}:{workload.exc_key(e)}", f"legacy variant ({kind}) does not load: {e!r}", desc)
         return
     S1 = snapshot.snap_synth(o1)
+    if "truncat" in kind:
+        # trailing fields of a shorter record: each one that is present denotes its value, each absent one its documented default
+        rec_ = None
+        cur_ = None
+        for cid_, pl_, *_x in iffparse.parse(raw):
+            if cid_ == b"CHNM":
+                cur_ = struct.unpack("<I", pl_)[0]
+            elif cid_ == b"CHDT" and cur_ == 0 and rec_ is None:
+                rec_ = pl_
+        pl1 = S1["module"]["payload"]
+        for name_, off_, fmt_, dflt_ in (("max_version", 0x184, "<I", 6), ("editor_cursor", 0x188, "<i", 0), ("editor_selected_size", 0x18c, "<i", 0)):
+            want_ = struct.unpack_from(fmt_, rec_, off_)[0] if rec_ is not None and len(rec_) >= off_ + 4 else dflt_
+            res.count("trailing_record_fields_checked")
+            if pl1.get(name_) != want_:
+                res.violation(f"C16:legacy-conversion:{name_}", f"{kind}: record of {len(rec_)} bytes: {name_} loads as {pl1.get(name_)}, the record {'holds' if len(rec_) >= off_ + 4 else 'ends before it; default'} {want_}", desc)
+                return
     if expect is not None:
         res.count("envelope_upgrades_checked")
         pl = S1["module"]["payload"]
